@@ -666,6 +666,12 @@ func (e *Engine) jsonIntrinsic(fn *ssa.Function, full string, args []Value) (Val
 		// RFC 8785 output is a function of the data model (member order and
 		// number spelling are canonicalised) and injective on it.
 		return TupleVal{JBytes{e.bytesToJ(args[0])}, IfaceVal{}}, true
+	case "bytes.Clone", "slices.Clone[[]byte byte]":
+		switch b := args[0].(type) {
+		case JBytes, bufBytes, SigBytes, YBytes:
+			return b, true // immutable in the engine
+		}
+		return nil, false
 	case "bytes.Equal":
 		if a, ok := args[0].(SliceVal); ok {
 			if b, ok := args[1].(SliceVal); ok { // plain bytes
